@@ -24,6 +24,9 @@ func (a *XYZ) VerifGetX(r *Field)       { a.get_x(r) }
 func (a *XYZ) VerifMulLambda(r *XYZ)    { a.mul_lambda(r) }
 func (a *Number) VerifSplitExp(r1, r2 *Number)        { a.split_exp(r1, r2) }
 func (a *Number) VerifSplit(rl, rh *Number, bits uint) { a.split(rl, rh, bits) }
+func (a *Number) VerifIsBelow(b *Number) bool { return a.is_below(b) }
+func (a *Number) VerifIsZero() bool            { return a.is_zero() }
+func (a *Number) VerifIsOdd() bool             { return a.is_odd() }
 func VerifWnaf(a *Number, w uint) []int {
 	var buf [300]int
 	n := ecmult_wnaf(buf[:], a, w)
